@@ -51,6 +51,11 @@ def pool(rng, scratch):
     items.append(("tdm-parray-fails", {"text": "name t\nversion 1.0\ntype tdm (temporal_modes=1)\nfloat array p0 =\n    1, 2\nSgate(p0, qqq) | 0\n"}))
     items.append(("tdm-p0-by-value", {"text": "name t\nversion 1.0\nfloat array p0 =\n    3, 4\nSgate(p0) | 0\n"}))
     items.append(("cast-error", {"text": H + "int n = 4\nfloat x = 1+2j\n"}))
+    items.append(("cast-error-computed", {"text": H + "float x = 2*1j\nOp(x) | 0\n"}))
+    items.append(("cast-error-computed-int", {"text": H + "int k = (1+2j)**2\nOp(k) | 0\n"}))
+    items.append(("cast-error-computed-array", {"text": H + "int array A =\n    3*1j, 1\nOp(A) | 0\n"}))
+    items.append(("declares-complex", {"text": H + "complex z = 1+2j\nstr s = \"a\"\nbool b = True\nOp(z, s, b) | 0\n"}))
+    items.append(("declares-two-floats", {"text": H + "float a1 = 0.5\nfloat a2 = 1.5\nint a3 = 2\nOp(a1, a2, a3) | 0\n"}))
     # includes: a subroutine used by two different main files, and a failing include
     d = os.path.join(scratch, "inc")
     os.makedirs(d, exist_ok=True)
@@ -146,7 +151,8 @@ def run(tier, seed):
                     hists.append([a, b])
         # always: all ordered pairs (and some triples) among the entries that involve files / includes / names of includes
         special = [it for it in items if it[0].startswith(("include-", "relative-include-", "op-named-like", "regref-"))]
-        num = [it for it in items if it[0].startswith("numeric-")] + [it for it in items if it[0] in ("binds-n", "cast-error")]
+        num = [it for it in items if it[0].startswith("numeric-")] + [it for it in items if it[0] in ("binds-n", "cast-error", "fails-after-binding-n")] \
+            + [it for it in items if it[0].startswith(("cast-error-computed", "declares-"))]
         for a in num:
             for b in num:
                 hists.append([a, b])
